@@ -40,8 +40,6 @@ ASSUMPTIONS = [
 # validation the compiler failed to do (LIMIT range, PIVOT BY position); data-dependent evaluation failures belong to C04/C18.
 LEDGER = '''
 option "operating_currency" "USD"
-2019-01-01 open Assets:Cash USD
-2019-01-01 open Expenses:Food USD
 '''
 
 _ENV = {}
@@ -140,6 +138,33 @@ def c_expr(n):
     raise Untranslatable(type(n).__name__)
 
 
+def const_expr(n):
+    """Evaluated at compile time (constant folding) or a literal?"""
+    if isinstance(n, (ast.Constant, ast.Placeholder)):
+        return True
+    if isinstance(n, ast.UnaryOp):
+        return const_expr(n.operand)
+    if isinstance(n, ast.BinaryOp) and not isinstance(n, (ast.In, ast.NotIn)):
+        return const_expr(n.left) and const_expr(n.right)
+    if isinstance(n, ast.Function) and n.fname != 'coalesce':
+        return all(const_expr(a) for a in n.operands or [])
+    return False
+
+
+def fold_sensitive(node):
+    """Does a GROUP BY / ORDER BY expression contain a folded (computed) constant? Whether it is the SAME node as a
+    target then depends on the computed VALUE, which the model does not have (see ASSUMPTIONS)."""
+    for n in node.walk():
+        if isinstance(n, ast.Select):
+            keys = [c for c in (n.group_by.columns if n.group_by else [])] + [o.column for o in (n.order_by or [])]
+            for k in keys:
+                if isinstance(k, ast.Node):
+                    for sub in k.walk():
+                        if not isinstance(sub, (ast.Constant, ast.Placeholder)) and const_expr(sub):
+                            return True
+    return False
+
+
 def c_ref(c):
     return f'(inl {cZ(c)})' if isinstance(c, int) else f'(inr {c_expr(c)})'
 
@@ -224,12 +249,23 @@ def c_params(p):
     return '(PMap ' + clist([f'({q(n)}, {c_const(v)})' for n, v in pv.items()]) + ')'
 
 
+def c_params_case(case):
+    p = case.get('params')
+    if case.get('container') == 'swap' and p is not None:
+        # the harness hands a mapping where a sequence is expected and vice versa
+        pv = py_params(p)
+        if p[0] == 'pos':
+            return '(PMap ' + clist([f'({q(str(i))}, {c_const(v)})' for i, v in enumerate(pv)]) + ')'
+        return '(PSeq ' + clist([c_const(v) for v in pv.values()]) + ')'
+    return c_params(p)
+
+
 def schema_coq():
     """User tables of the harness connection as a Gallina [list table] (the Beancount tables come from the snapshot)."""
     out = []
     for name, cols in USER_TABLES:
         out.append(f'(mk_table {q(name)} {clist([f"({q(c)}, {q(t)})" for c, t in cols])} '
-                   f'{clist([q(c) for c, _ in cols])} false false)')
+                   f'{clist([q(c) for c, _ in cols])} false)')
     return clist(out)
 
 
@@ -341,7 +377,7 @@ def summarize(cq):
         kind = 1
     if isinstance(cq, query_compile.EvalPrint):
         return [2, [], [], [], [], [], [], 0]
-    targets = [[([1, [ord(c) for c in q_enc(t.name)]] if t.name is not None else [0]),
+    targets = [[([[ord(c) for c in q_enc(t.name)]] if t.name is not None else []),
                 [ord(c) for c in tname(t.c_expr.dtype)], int(bool(t.is_aggregate))] for t in cq.c_targets]
     return [kind, targets,
             [] if cq.group_indexes is None else [list(cq.group_indexes)],
@@ -370,7 +406,8 @@ def observe(case):
             rec['problems'].append('span-of-other-text')
         return rec
     try:
-        rec['coq'] = f'compile_out {c_params(case.get("mparams", params))} {c_stmt(node)}'
+        rec['coq'] = f'{c_params_case(case)} {c_stmt(node)}'
+        rec['fold_sensitive'] = fold_sensitive(node)
     except Untranslatable as u:
         rec['untranslatable'] = str(u)
     except Exception as u:  # noqa: BLE001
@@ -573,6 +610,10 @@ def mutants():
     add('param-no-placeholder-ok', 'SELECT a FROM #t', ['pos', [['int', 1]]], expect='accept')
     add('param-container', 'SELECT a FROM #t WHERE a = %s', None, expect='any')
     add('param-container', 'SELECT a FROM #t WHERE a = %(x)s', ['pos', [['int', 1]]], expect='any')
+    add('param-container', 'SELECT a FROM #t WHERE a = %s', ['pos', [['int', 1]]], expect='any', container='swap')
+    add('param-container', 'SELECT a FROM #t WHERE a = %(x)s', ['named', [['x', 'int', 1]]], expect='any', container='swap')
+    add('duplicate-grouped-target', 'SELECT a, a, count(*) FROM #t GROUP BY a', expect='accept')
+    add('duplicate-grouped-target', 'SELECT a, a AS c, count(*) FROM #t GROUP BY 1', expect='accept')
     # literals
     for d in ('2020-13-01', '2021-02-29', '2020-00-10', '2020-01-32', '0000-01-01'):
         add('invalid-date-as-arithmetic', f'SELECT {d} FROM #t', expect='any')   # not a date: reads as 2020 - 13 - 1
@@ -615,9 +656,9 @@ def overload_sweep(reg, rng, tier):
             continue
         combos = list(itertools.product(PROBES, repeat=ar))
         if ar == 3:
-            combos = rng.sample(combos, 150 if tier == 'quick' else 1500)
+            combos = rng.sample(combos, 100 if tier == 'quick' else 1500)
         if ar == 2 and tier == 'quick':
-            combos = rng.sample(combos, 60)
+            combos = rng.sample(combos, 40)
         for c in combos:
             tys = [t for _, t in c]
             if ar == 1:
@@ -635,7 +676,7 @@ def overload_sweep(reg, rng, tier):
         arities = sorted({len(ov[1]) for ov in ovs} | {0, 1, 2})
         for ar in arities:
             combos = list(itertools.product(PROBES, repeat=ar))
-            cap = {0: 1, 1: 17, 2: 12 if tier == 'quick' else 289, 3: 8 if tier == 'quick' else 400}.get(ar, 8)
+            cap = {0: 1, 1: 17 if tier != 'quick' else 8, 2: 6 if tier == 'quick' else 120, 3: 4 if tier == 'quick' else 150}.get(ar, 4)
             if len(combos) > cap:
                 # always keep the declared signatures (by a probe of that exact type) and sample the rest
                 combos = rng.sample(combos, cap)
@@ -707,10 +748,9 @@ def corrupt(rng, text):
 # Model side
 
 def model_many(cases, tag='c05'):
-    exprs = [f'(let user := {schema_coq()} in {c["coq"]} )' for c in cases]
-    # compile_out takes the schema first: rewrite to pass it
-    exprs = [f'(compile_out_with {schema_coq()} {c["coq"][len("compile_out "):]})' for c in cases]
-    return core.coq_eval(tag, ['Base.PyValue', 'Model.Compile'], exprs, shard=120)
+    sc = schema_coq()
+    exprs = [f'(compile_out_with {sc} {c["coq"]})' for c in cases]
+    return core.coq_eval(tag, ['Base.PyValue', 'Model.Compile'], exprs, shard=150)
 
 
 def model_expected(rec):
@@ -718,12 +758,67 @@ def model_expected(rec):
     if rec['phase'] in ('parse', 'fold-error') or rec['coq'] is None:
         return None
     if rec['phase'] == 'compile':
-        return [1, rec['kind'] if rec['cls'] != 'other:TypeError' or rec['kind'] else rec['kind']]
+        if rec['cls'] == 'other:TypeError' and rec['msg'].startswith('query parameters should be a'):
+            return [1, 1]
+        return [1, rec['kind']]
     return [0, rec['summary']]
 
 
+def agg_dtype_rule_check():
+    """The model's rule 'first/last/min/max take the dtype of their operand, every other aggregate announces its
+    declared type' against the live aggregator classes (instantiated on a typed dummy operand)."""
+    from beanquery import types as bq_types
+    bad = []
+    n = 0
+    for name, ovs in query_compile.FUNCTIONS.items():
+        for f in ovs:
+            if not (isinstance(f, type) and issubclass(f, query_compile.EvalAggregator)):
+                continue
+            for probe in (str, bool, D):
+                ops = []
+                for t in f.__intypes__:
+                    if t is bq_types.Any:
+                        ops.append(query_compile.EvalConstant(None, probe))
+                    elif isinstance(t, type) and issubclass(probe, t):
+                        ops.append(query_compile.EvalConstant(None, probe))
+                    else:
+                        ops.append(query_compile.EvalConstant(None, t))
+                got = f(None, ops).dtype
+                declared = f(None, [query_compile.EvalConstant(None, object if t is bq_types.Any else t) for t in f.__intypes__]).dtype
+                expect = ops[0].dtype if name in ('first', 'last', 'min', 'max') else declared
+                n += 1
+                if got is not expect:
+                    bad.append(f'{name}{[tname(t) for t in f.__intypes__]} on {tname(ops[0].dtype)}: dtype {tname(got)}, model {tname(expect)}')
+    return n, bad
+
+
+def schema_tie_check():
+    """Facts about the live tables the model hard-wires: which tables have update(), and how their columns compare."""
+    bad = []
+    conn = env()['conn']
+    for name, t in conn.tables.items():
+        bean = name in ('entries', 'postings')
+        user = name in [n for n, _ in USER_TABLES]
+        if hasattr(t, 'update') != bean:
+            bad.append(f'table {name!r}: update() present = {hasattr(t, "update")}')
+        cols = list(t.columns.items())
+        for i, (a, ca) in enumerate(cols):
+            for b, cb in cols[i + 1:]:
+                same = bool(ca == cb)
+                expect = False      # every column has its own accessor identity
+                if same != expect:
+                    bad.append(f'table {name!r}: columns {a} == {b} is {same}, model says {expect}')
+    return bad
+
+
 def generate():
-    return gen_registry.generate()
+    info = gen_registry.generate()
+    n, bad = agg_dtype_rule_check()
+    info['aggregate_dtype_rule_checks'] = n
+    bad += schema_tie_check()
+    if bad:
+        raise RuntimeError('model assumptions about the live classes broken: ' + '; '.join(bad[:5]))
+    return info
 
 
 # ------------------------------------------------------------------------------------------------
@@ -731,8 +826,8 @@ def generate():
 def build_cases(tier, rng):
     e = env()
     g = Gen(rng, e['reg'])
-    n_valid = 500 if tier == 'quick' else 30000
-    n_corrupt = 1200 if tier == 'quick' else 50000
+    n_valid = 350 if tier == 'quick' else 8000
+    n_corrupt = 700 if tier == 'quick' else 20000
     cases = []
     valid_texts = []
     for i in range(n_valid):
@@ -774,7 +869,9 @@ def judge(case, rec, model):
         out.append(('rejected-well-formed', 'rejected:' + case['rule'], f'{short!r} is well-formed ({case["rule"]}) but was rejected: {rec["cls"]}: {rec["msg"]}'))
     if model is not None:
         exp = model_expected(rec)
-        if exp is not None and norm(exp) != norm(model):
+        if exp is not None and norm(exp) != norm(model) and rec.get('fold_sensitive'):
+            out.append(('fold-undetermined', 'fold-undetermined', 'not a violation'))
+        elif exp is not None and norm(exp) != norm(model):
             out.append(('model-mismatch', 'model:' + case['rule'] + ':' + short,
                         f'{short!r} params={case.get("params")}: implementation {brief(exp)} but the model of compiler.py gives {brief(model)}'))
     return out
@@ -815,6 +912,10 @@ def run(tier, rng, use_model=True):
         if m is not None:
             compared += 1
         for kind, sig, summary in judge(c, r, m):
+            if kind == 'fold-undetermined':
+                hist.setdefault('fold_undetermined', 0)
+                hist['fold_undetermined'] += 1
+                continue
             if sig in seen:
                 seen[sig][1] += 1
                 continue
@@ -847,4 +948,4 @@ def replay(rec):
             m = model_many([r], tag='c05r')[0]
         except Exception:  # noqa: BLE001
             m = None
-    return not judge(case, r, m)
+    return not [j for j in judge(case, r, m) if j[0] != 'fold-undetermined']
